@@ -101,9 +101,18 @@ class BagMapped(AlternativeMapping[Bag]):
 
 @dataclass(eq=False)
 class LabeledBag(Bag):
-    """a normally mapped subclass of an alternatively mapped class"""
+    """a normally mapped subclass of an alternatively mapped class; declares relationships of its own"""
 
     label: int = 11
+    spare: Optional[Leaf] = None
+    more: List[Leaf] = field(default_factory=list)
+
+
+@dataclass(eq=False)
+class SealedBag(LabeledBag):
+    """two levels below the alternatively mapped class"""
+
+    seal: int = 13
 
 
 @dataclass(eq=False)
@@ -139,6 +148,38 @@ class Album:
 
 
 @dataclass(eq=False)
+class Shape:
+    sides: int = 3
+
+
+@dataclass(eq=False)
+class Circle(Shape):
+    """an alternatively mapped subclass of a normally mapped class (stored with its diameter); reached through fields typed Shape"""
+
+    radius: int = 1
+
+
+@dataclass(eq=False)
+class CircleMapped(AlternativeMapping[Circle]):
+    sides: int = 0
+    diameter: int = 2
+
+    @classmethod
+    def create_instance(cls, obj: Circle):
+        return cls(obj.sides, 2 * obj.radius)
+
+    def create_from_dao(self) -> Circle:
+        return Circle(self.sides, self.diameter // 2)
+
+
+@dataclass(eq=False)
+class Drawing:
+    number: int = 14
+    main: Optional[Shape] = None
+    shapes: List[Shape] = field(default_factory=list)
+
+
+@dataclass(eq=False)
 class Rich:
     """scalars of every supported kind"""
 
@@ -156,5 +197,5 @@ class Rich:
     owner: Optional[Node] = None
 
 
-CLASSES = [Leaf, SubLeaf, SubSubLeaf, DeepLeaf, Vec, Node, SubNode, Rich, Bag, LabeledBag, Holder, Strip, Album]
-ALTERNATIVE_MAPPINGS = [VecMapped, BagMapped, StripMapped]
+CLASSES = [Leaf, SubLeaf, SubSubLeaf, DeepLeaf, Vec, Node, SubNode, Rich, Bag, LabeledBag, SealedBag, Holder, Strip, Album, Shape, Circle, Drawing]
+ALTERNATIVE_MAPPINGS = [VecMapped, BagMapped, StripMapped, CircleMapped]
